@@ -78,7 +78,13 @@ class World:
     def write(self, fn, caps, other_empty_language=False, looked_at_first=False):
         # (other_empty_language: the set also holds a language without captions, listed after the written one;
         #  looked_at_first: before the write, every caption was printed and its times were formatted with both separators)
-        objs = [self.caption(*c) for c in caps]
+        # (an entry that is the same tuple OBJECT as an earlier one stands for one Caption object the list holds twice)
+        made = {}
+        objs = []
+        for c in caps:
+            if id(c) not in made:
+                made[id(c)] = self.caption(*c)
+            objs.append(made[id(c)])
         if looked_at_first:
             for c_ in objs:
                 self.ev("(repr(c), c.format_start(msec_separator=','), c.format_end(msec_separator='.'), c.format_start(), c.format_end(msec_separator=','))", c=c_)
@@ -170,6 +176,12 @@ def caption_sets(texts, thorough):
         yield [(s, e, texts[0]), (s, e, texts[1])]
         yield [(s, e, texts[0]), (s, e, texts[1]), (pairs[i + 1][0], pairs[i + 1][1], texts[4])]
         yield [(s, e, texts[0]), (pairs[i + 1][0], pairs[i + 1][1], texts[4]), (pairs[i + 2][0], pairs[i + 2][1], texts[1])]
+    # one Caption object held twice by the list: followed by a caption with the same times the first time, alone the second
+    for i in (0, 5):
+        s, e = pairs[i]
+        twice = (s, e, texts[0])
+        yield [twice, (s, e, texts[1]), (pairs[i + 1][0], pairs[i + 1][1], texts[4]), twice]
+        yield [twice, (pairs[i + 1][0], pairs[i + 1][1], texts[4]), twice, (s, e, texts[1])]
     # consecutive captions whose times agree to the millisecond (or frame) but are not identical: never merged
     for i in (0, 5):
         s, e = pairs[i]
